@@ -75,9 +75,14 @@ func (b *byzActor) signProposal(H uint64, R int, psh types.PartSetHeader, polRou
 
 // sendBlock sends proposal + all parts of block to node h.
 func (b *byzActor) sendBlock(h *Node, H uint64, R int, block *types.Block, why string) types.BlockID {
+	return b.sendBlockPOL(h, H, R, block, why, -1, types.BlockID{})
+}
+
+// sendBlockPOL is sendBlock with a proof-of-lock round claimed in the proposal.
+func (b *byzActor) sendBlockPOL(h *Node, H uint64, R int, block *types.Block, why string, polRound int, polID types.BlockID) types.BlockID {
 	cl := b.cl
 	parts := block.MakePartSet(cl.cfg.PartSize)
-	p := b.signProposal(H, R, parts.Header(), -1, types.BlockID{})
+	p := b.signProposal(H, R, parts.Header(), polRound, polID)
 	if p == nil {
 		return types.BlockID{}
 	}
